@@ -418,7 +418,38 @@ def _obj_filled(val):
 
 sym_zeros = _obj_filled(0.0)
 sym_ones = _obj_filled(1.0)
-sym_empty = _obj_filled(0.0)
+
+
+def _uninit(shape):
+    """np.empty / np.empty_like: uninitialised memory is an ARBITRARY value, not zero -- every element is a fresh symbol
+    (`uninit#k'), so a read before the first write shows up in whatever is computed from it.  Large arrays (never read
+    element-wise by the code paths the harnesses drive) and calls outside an exploration keep the old zero filling."""
+    a = _np.empty(shape, dtype=object)
+    try:
+        ex = current()
+    except RuntimeError:
+        ex = None
+    if ex is None or a.size > 64:
+        if a.ndim == 0:
+            a[()] = 0.0
+        else:
+            a.fill(0.0)
+        return a
+    for idx in _np.ndindex(a.shape):
+        a[idx] = ex.fresh('uninit')
+    if a.ndim == 0:
+        a[()] = ex.fresh('uninit')
+    return a
+
+
+def sym_empty(shape=None, dtype=None, **kw):
+    if shape is None:
+        shape = kw.pop('shape')
+    return _uninit(shape)
+
+
+def sym_empty_like(a, dtype=None, **kw):
+    return _uninit(_np.shape(a))
 
 
 def _like(val):
@@ -480,7 +511,7 @@ OVERRIDES = {
     'greater': _cmpfn('gt', _np.greater), 'greater_equal': _cmpfn('ge', _np.greater_equal),
     'less': _cmpfn('lt', _np.less), 'less_equal': _cmpfn('le', _np.less_equal),
     'zeros': sym_zeros, 'ones': sym_ones, 'empty': sym_empty, 'full': sym_full,
-    'zeros_like': _like(0.0), 'ones_like': _like(1.0), 'empty_like': _like(0.0),
+    'zeros_like': _like(0.0), 'ones_like': _like(1.0), 'empty_like': sym_empty_like,
     'sqrt': sym_sqrt, 'exp': sym_exp, 'log': sym_log, 'log10': sym_log10,
     'sin': sym_sin, 'cos': sym_cos, 'tan': sym_tan,
     'arctan': sym_arctan, 'arccos': sym_arccos, 'arcsin': sym_arcsin, 'arctan2': sym_arctan2,
